@@ -169,6 +169,16 @@ def check_group(seq, how, probe_versions=VERS):
     except Exception as e:  # noqa: BLE001
         raise Violation(f"C16:group-{tag}:construct-raises", f"{type(e).__name__}: {e}", "group is built")
     _check_answers(g, seq, tag, probe_versions)
+    if how != "ep":
+        # registering a (name, version) again (notebook cell run twice) replaces the plugin, it is not listed twice
+        n0, v0 = seq[0]
+        info = type("Plugin", (), dict(name=n0, version=v0))
+        putil.register_in_group(g, _PM("reg_again", (object,), {"Plugin": info}), violently=True)
+        try:
+            _check_answers(g, seq, tag, probe_versions)
+        except Violation as v:
+            v.signature += ":after-registering-again"
+            raise
     return g
 
 
